@@ -723,7 +723,7 @@ func TestNegativeFlips(t *testing.T) {
 	flipMustFail(t, g, 16, 16, "syndrome")
 
 	g = mustEncode(t, strings.Repeat("Data Matrix ", 4), 32) // 48 cw -> 32x32
-	flipMustFail(t, g, 15, 5, "right clock")                   // right clock of region (0,0)
+	flipMustFail(t, g, 15, 5, "right clock")                 // right clock of region (0,0)
 	flipMustFail(t, g, 15, 6, "right clock")
 	flipMustFail(t, g, 16, 5, "left solid finder") // left finder of region (1,0)
 	flipMustFail(t, g, 16, 20, "left solid finder")
